@@ -73,9 +73,15 @@ func buildScenarios(t *gen.Tree, good []string, rng *rand.Rand, tier string) []*
 	}
 	flagSets := [][]string{nil, {"-stub"}, {"-with-resets", "-skip-ensure"}}
 	pick := func(n int) []string {
+		// distinct names: the same interface twice under the default mock name declares one type twice
 		var ns []string
+		perm := rng.Perm(len(good))
 		for i := 0; i < n; i++ {
-			ns = append(ns, good[rng.Intn(len(good))])
+			name := good[perm[i%len(perm)]]
+			if i >= len(perm) {
+				name += fmt.Sprintf(":Again%d%s", i, good[perm[i%len(perm)]])
+			}
+			ns = append(ns, name)
 		}
 		return ns
 	}
